@@ -27,21 +27,27 @@ TRUSTED = [
     "modelled by hand: nextobject/do_keyword/flush of PSStackParser, PDFParser, PDFStreamParser (Model/StackParser.v) on "
     "top of Model/Lexer.v; tied by correspondence. Python float()/int(), utf-8 decision for names, safe_int on "
     "non-integer operands are outside the model",
-    "byte-level spelling of COMPOSITE values (concatenation of token spellings with optional white space) is covered by "
-    "correspondence, not by a theorem; scalar spellings and the object layer are theorems",
+    "byte-level spelling of COMPOSITE values (concatenation of token spellings with optional white space) and of real "
+    "numbers is covered by correspondence, not by a theorem; the byte spellings of literal strings, hexadecimal "
+    "strings, names and integers and the object layer are theorems",
 ]
 ASSUMPTIONS = ["settings.STRICT is False (the library default)", "object numbers are integers; generation numbers are discarded "
                "by pdfminer (PDFObjRef keeps the object number only), so references compare by object number"]
 MANIFEST_ENTRY = {
     "category": "proof",
-    "technique": "Coq proof by induction on the value (object layer, any nesting) and on the spelling (scalar tokens) over "
+    "technique": "Coq proof by induction on the value (object layer, any nesting) and on the spelling (strings, names, integers) over "
                  "the lexer automaton proved equal to the buffered scanners; differential runs on sampled ISO spellings",
     "text": "Theorems: (1) for every value tree of any depth, the model of nextobject applied to the value's token sequence "
             "yields exactly the value (null-valued dictionary entries absent, last duplicate key wins), in PDFStreamParser "
-            "and PDFParser flavour; (2) for every name / literal string / hexadecimal string / integer and every spelling "
-            "in the stated escape families, the lexer automaton yields exactly that token; (3) by C14's theorems the "
-            "result is the same for every BUFSIZ and file offset. The step from scalar spellings to the byte spelling of a "
-            "whole composite value is covered by correspondence on sampled spellings only (claimed as partial).",
+            "and PDFParser flavour; (2) for every literal string and every sequence of admissible spellings of its bytes (raw, named "
+            "escape, 1-3 digit octal, line continuation LF/CR/CRLF, ignored backslash; a short octal escape not followed by "
+            "a raw digit, backslash-CR not by a raw LF) the chunked tokenizer yields, for every BUFSIZ and offset, exactly "
+            "the one string token with those bytes, and every byte string has such a spelling; the same for hexadecimal strings "
+            "(either case, white space anywhere, even digit count), names (raw regular bytes and #xx) and integers (sign, "
+            "leading zeros), each also 'in context' (after any prefix that leaves the tokenizer between tokens, up to any "
+            "delimiter); (3) by C14's theorems the tokens are the same for every BUFSIZ and file offset. Real numbers and "
+            "the step from token spellings to the byte spelling of a whole composite value are covered by correspondence "
+            "on sampled spellings only (claimed as partial).",
     "note": "Trusted: Coq kernel, class translator, hand model tied by correspondence, harness sampler. Known findings: odd-length "
             "hex strings (pinned by the test suite) and raw CR/CRLF inside literal strings are read differently from ISO; "
             "they are excluded from the theorems' spelling families and reported as KNOWN-FINDING.",
